@@ -121,7 +121,8 @@ class Units(list):
 # property -> units per tier, judgement kinds routed to it, crash routing, extra filter
 PROPS = {
     'C01': {'level': 'model_checking',
-            'units': {'quick': u('S1', ALL), 'thorough': u('S1', ALL, ('AE', 'NP')) + u('S1', ALL, ('AE',), ('ndebug',))},
+            'units': {'quick': u('S1', ALL) + u('SR', ['V_T', 'V_N', 'F_N', 'M_NA']),
+                      'thorough': u('S1', ALL, ('AE', 'NP')) + u('S1', ALL, ('AE',), ('ndebug',)) + u('SR', ALL, ('AE', 'PR'))},
             'kinds': K_SEQ | {'PATHS_DISAGREE'}, 'crash': crash_any, 'filter': None,
             'technique': 'TLA+ model (Cntgs.tla) explored by TLC; transition-cover histories replayed on the real '
                          'templates; every step of the recorded trace judged by Trace.tla (sequence semantics)'},
@@ -155,14 +156,15 @@ PROPS = {
                          'the observed footprint of a fresh vector'},
     'C06': {'level': 'model_checking',
             'units': {'quick': u('S1', NONTRIV) + u('S2', NONTRIV, ('NP', 'PR')),
-                      'thorough': u('S1', NONTRIV, ('AE', 'NP')) + u('S2', NONTRIV, ('NP', 'AE', 'PR'))},
+                      'thorough': u('S1', NONTRIV, ('AE', 'NP')) + u('S2', NONTRIV, ('NP', 'AE', 'PR'))
+                                  + u('SR', NONTRIV, ('AE', 'PR'))},
             'kinds': K_LIFE | {'VALUES'}, 'crash': crash_any, 'filter': None,
             'technique': 'constructor/assignment/destructor events of the instrumented value type inside every '
                          'operation folded by the lifetime sub-machine of Trace.tla; live objects compared with the '
                          'slots of the held values after every step'},
     'C07': {'level': 'model_checking',
             'units': {'quick': u('S1', ALL) + u('S2', ALL, ('NP',)) + u('S2', ['F_N', 'V_N'], ('AE', 'PR')),
-                      'thorough': u('S1', ALL, ('AE', 'NP')) + u('S2', ALL, ('NP', 'AE', 'PR'))},
+                      'thorough': u('S1', ALL, ('AE', 'NP')) + u('S2', ALL, ('NP', 'AE', 'PR')) + u('SR', ALL, ('AE', 'PR'))},
             'kinds': K_LEDGER, 'crash': never, 'filter': None,
             'technique': 'allocate/deallocate events of the ledger allocator folded by the ledger sub-machine of '
                          'Trace.tla (size, equal allocator, exactly once); empty ledger required at the end of every '
@@ -177,7 +179,7 @@ PROPS = {
                          'instance of every block (at use and at free) judged by Trace.tla'},
     'C09': {'level': 'model_checking',
             'units': {'quick': u('S2', ALL, ('NP',)) + u('S2', ['F_N', 'V_N'], ('AE', 'PR')),
-                      'thorough': u('S2', ALL, ('NP', 'AE', 'PR'))},
+                      'thorough': u('S2', ALL, ('NP', 'AE', 'PR')) + u('SR', ALL, ('AE', 'PR'))},
             'kinds': K_VALUE, 'crash': crash_any, 'filter': None,
             'technique': 'two-vector TLA+ model (copy/move construction and assignment, swap, self forms, moved-from '
                          'targets, all source/target shapes up to capacity 2) explored by TLC; the projection of BOTH '
